@@ -34,6 +34,10 @@
  *
  * The tables must stay in step with TABLES in vlib/c18.py.
  */
+#include <sys/time.h>
+
+#include <assert.h>
+
 #include "vh.h"
 
 #include "getopt.h"
@@ -41,6 +45,7 @@
 static char * evbuf;
 static size_t evlen, evcap;
 static int nev;
+static int maxev;	/* More labels than argv has characters: runaway loop. */
 
 static void
 ev_put(const char * s, size_t n)
@@ -64,6 +69,8 @@ rec(const char * label, const char * arg)
 	static const char hd[] = "0123456789abcdef";
 	size_t i;
 
+	/* Every label consumes at least one character of the command line. */
+	assert(nev < maxev && "the option loop makes progress");
 	if (nev++)
 		ev_put(",", 1);
 	ev_put(label, strlen(label));
@@ -328,6 +335,30 @@ av_build(struct av * a, const char * spec)
 	a->argv[n + 1] = NULL;
 }
 
+/* Upper bound on the labels a parse of this vector can reach. */
+static int
+av_maxev(const struct av * a)
+{
+	size_t n = 1;
+	int i;
+
+	for (i = 1; i < a->argc; i++)
+		n += strlen(a->argv[i]) + 1;
+	return ((int)n);
+}
+
+/* A parse takes microseconds: one second of CPU time means it hangs. */
+static void
+watchdog(int on)
+{
+	struct itimerval it;
+
+	memset(&it, 0, sizeof(it));
+	it.it_value.tv_sec = on ? 1 : 0;
+	if (setitimer(ITIMER_VIRTUAL, &it, NULL))
+		vh_die("setitimer");
+}
+
 static void
 av_free(struct av * a)
 {
@@ -372,7 +403,10 @@ main(void)
 			opterr = 0;
 			evlen = 0;
 			nev = 0;
+			maxev = av_maxev(&a);
+			watchdog(1);
 			tables[pt](a.argc, a.argv, limit);
+			watchdog(0);
 			av_free(&a);
 		}
 
@@ -386,7 +420,10 @@ main(void)
 		nev = 0;
 		if (evbuf != NULL)
 			evbuf[0] = '\0';
+		maxev = av_maxev(&a);
+		watchdog(1);
 		tables[t](a.argc, a.argv, -1);
+		watchdog(0);
 		printf("R %s %d\n", nev ? evbuf : "-", optind);
 		av_free(&a);
 	}
